@@ -1004,7 +1004,9 @@ fn diff_history(seed: u64, n: usize, indirect: bool, event_idx: bool, mode: HalM
         } else {
             let r = catch_unwind(AssertUnwindSafe(|| (q.can_pop(), q.peek_used(), q.available_desc(), q.should_notify())));
             match r {
-                Ok((a, b, c, _)) => api.push(format!("{} query -> {} {:?} {}", step, a, b, c)),
+                // should_notify() reads device-owned memory (identical in both runs) and the driver's private index:
+                // it is a caller-visible result like the others
+                Ok((a, b, c, d)) => api.push(format!("{} query -> {} {:?} {} notify {}", step, a, b, c, d)),
                 Err(_) => {
                     panicked += 1;
                     break;
